@@ -24,7 +24,9 @@ import (
 	"reflect"
 	"strings"
 
+	pcbor "github.com/blinklabs-io/gouroboros/cbor"
 	pcommon "github.com/blinklabs-io/gouroboros/protocol/common"
+	lms "github.com/blinklabs-io/gouroboros/protocol/localmessagesubmission"
 	"golang.org/x/crypto/blake2b"
 
 	"verifharness/vh"
@@ -60,6 +62,11 @@ type jop struct {
 	Msg  *jmsg   `json:"msg,omitempty"`
 	Nil  bool    `json:"nil,omitempty"` // verify(nil)
 	Slot *uint64 `json:"slot,omitempty"`
+	// Via says how the message object handed to VerifyMessage comes into being:
+	// "" struct literal; "wire" MarshalCBOR + the real decoder; "legacy-wire" the V1 wire shape + the real
+	// decoder; "submit" inside a local-message-submission MsgSubmitMessage through NewMsgFromCbor;
+	// "setid" struct literal followed by SetMessageID(ID())
+	Via string `json:"via,omitempty"`
 }
 
 type hist struct {
@@ -104,6 +111,62 @@ func (j *jmsg) build() *pcommon.DmqMessage {
 		ColdVerificationKey: vh.UnHex(j.Cold),
 	}
 	return m
+}
+
+// construct builds the message object the way o.Via says.  The returned jmsg describes the fields of the
+// object that is actually verified (decoding normalises the two id fields); monitor and model work on it.
+func (o *jop) construct() (*pcommon.DmqMessage, *jmsg, error) {
+	m := o.Msg.build()
+	switch o.Via {
+	case "wire":
+		data, err := pcbor.Encode(*m) // DmqMessage.MarshalCBOR
+		if err != nil {
+			return nil, nil, err
+		}
+		var d pcommon.DmqMessage
+		if _, err := pcbor.Decode(data, &d); err != nil {
+			return nil, nil, err
+		}
+		m = &d
+	case "legacy-wire":
+		data, err := pcommon.MarshalDmqMessageLegacyCBOR(*m)
+		if err != nil {
+			return nil, nil, err
+		}
+		var d pcommon.DmqMessage
+		if _, err := pcbor.Decode(data, &d); err != nil {
+			return nil, nil, err
+		}
+		m = &d
+	case "submit":
+		data, err := pcbor.Encode(lms.NewMsgSubmitMessage(*m))
+		if err != nil {
+			return nil, nil, err
+		}
+		pm, err := lms.NewMsgFromCbor(lms.MessageTypeSubmitMessage, data)
+		if err != nil {
+			return nil, nil, err
+		}
+		sm, ok := pm.(*lms.MsgSubmitMessage)
+		if !ok {
+			return nil, nil, errors.New("NewMsgFromCbor did not return a MsgSubmitMessage")
+		}
+		m = &sm.Message
+	case "setid":
+		m.SetMessageID(m.ID())
+	}
+	eff := &jmsg{
+		ID: hex.EncodeToString(m.MessageID), LegacyID: hex.EncodeToString(m.Payload.MessageID),
+		Body: hexp(m.Payload.MessageBody), KesP: m.Payload.KESPeriod, Expires: m.Payload.ExpiresAt,
+		KesSig: hex.EncodeToString(m.KESSignature), KesVkey: hexp(m.OperationalCertificate.KESVerificationKey),
+		Issue: m.OperationalCertificate.IssueNumber, OcKesP: m.OperationalCertificate.KESPeriod,
+		ColdSig: hex.EncodeToString(m.OperationalCertificate.ColdSignature), Cold: hex.EncodeToString(m.ColdVerificationKey),
+		Note: o.Msg.Note,
+	}
+	if o.Via != "" {
+		eff.Note += "/" + o.Via
+	}
+	return m, eff, nil
 }
 
 // ---------------------------------------------------------------------------
@@ -208,6 +271,7 @@ func readCache(a *pcommon.MessageAuthenticator) (map[string]uint64, error) {
 }
 
 type runResult struct {
+	eff   map[int]*jmsg // op index -> fields of the object that was verified
 	obs   []obs
 	calls []kesCall
 	final []finalEntry
@@ -225,7 +289,7 @@ func runHist(h *hist) (*runResult, error) {
 	} else {
 		a = pcommon.NewMessageAuthenticator(quiet())
 	}
-	rr := &runResult{}
+	rr := &runResult{eff: map[int]*jmsg{}}
 	ncalls := 0
 	// shadow of the history for the monitor
 	shReg := map[string]bool{}
@@ -282,7 +346,11 @@ func runHist(h *hist) (*runResult, error) {
 				}
 				continue
 			}
-			m := o.Msg.build()
+			m, eff, cerr := o.construct()
+			if cerr != nil {
+				return nil, fmt.Errorf("op %d: cannot build the message via %q: %w", i, o.Via, cerr)
+			}
+			rr.eff[i] = eff
 			id0 := append([]byte{}, m.ID()...)
 			mid0, lid0 := append([]byte{}, m.MessageID...), append([]byte{}, m.Payload.MessageID...)
 			if o.Slot != nil {
@@ -294,8 +362,11 @@ func runHist(h *hist) (*runResult, error) {
 			if changed && !(bytes.Equal(m.MessageID, id0) && bytes.Equal(m.Payload.MessageID, id0)) {
 				rr.viol = append(rr.viol, vh.Violation{Kind: "monitor", Key: "id-fields-rewritten-to-other-value", What: fmt.Sprintf("op %d: verification rewrote the id fields to something that is not the message's id", i)})
 			}
-			rr.obs = append(rr.obs, obs{err == nil, changed, ncalls > before})
-			cold := vh.UnHex(o.Msg.Cold)
+			// observable: after the call both id fields hold the message's id (set by SetMessageID, or
+			// already so before - decoded messages arrive like that)
+			bothID := bytes.Equal(m.MessageID, id0) && bytes.Equal(m.Payload.MessageID, id0)
+			rr.obs = append(rr.obs, obs{err == nil, bothID, ncalls > before})
+			cold := vh.UnHex(eff.Cold)
 			pool := poolOf(cold)
 			pools[pool] = true
 			if err != nil {
@@ -307,7 +378,7 @@ func runHist(h *hist) (*runResult, error) {
 				continue // the documented no-op authenticator
 			}
 			// ---- the property, clause by clause, on independent computations ----
-			j := o.Msg
+			j := eff
 			bad := func(key, what string) {
 				rr.viol = append(rr.viol, vh.Violation{Kind: "monitor", Key: key, What: fmt.Sprintf("op %d (%s): accepted although %s", i, j.Note, what)})
 			}
@@ -440,7 +511,7 @@ func coqCase(h *hist, rr *runResult) string {
 				ops = append(ops, "Verify None "+optN(o.Slot))
 				continue
 			}
-			j := o.Msg
+			j := rr.eff[i]
 			cold, csig := vh.UnHex(j.Cold), vh.UnHex(j.ColdSig)
 			addHash(encPayload(j))
 			addHash(cold)
@@ -546,7 +617,7 @@ func flipBit(s string, r *vh.Rng) string {
 }
 
 var corruptions = []string{
-	"id-bit", "id-legacy-only", "id-both-garbage-legacy", "id-empty", "id-short", "id-long",
+	"id-bit", "id-both-forged", "id-both-bit", "id-both-forged", "id-legacy-only", "id-both-garbage-legacy", "id-empty", "id-short", "id-long",
 	"body-changed", "expires-changed", "payload-period-changed", "payload-changed-reid",
 	"coldsig-bit", "coldsig-short", "cold-other-pool", "cold-short", "cold-long", "issue-changed", "oc-period-changed",
 	"vkey-changed", "vkey-short-signed", "vkey-nil-signed", "vkey-long-signed",
@@ -558,6 +629,12 @@ func corrupt(r *vh.Rng, kind string, p, other *poolKey, j *jmsg) {
 	switch kind {
 	case "id-bit":
 		j.ID = flipBit(j.ID, r)
+	case "id-both-forged": // the same wrong 32-byte id in the field and in the legacy alias
+		f := hex.EncodeToString(r.Bytes(32))
+		j.ID, j.LegacyID = f, f
+	case "id-both-bit":
+		f := flipBit(j.ID, r)
+		j.ID, j.LegacyID = f, f
 	case "id-legacy-only": // still valid: the alias is accepted
 		j.LegacyID, j.ID = j.ID, ""
 	case "id-both-garbage-legacy": // still valid: the top-level id wins
@@ -631,6 +708,21 @@ func corrupt(r *vh.Rng, kind string, p, other *poolKey, j *jmsg) {
 	}
 }
 
+func pickVia(r *vh.Rng) string {
+	switch x := r.Intn(20); {
+	case x < 7:
+		return ""
+	case x < 13:
+		return "wire"
+	case x < 15:
+		return "submit"
+	case x < 17:
+		return "legacy-wire"
+	default:
+		return "setid"
+	}
+}
+
 func genHist(r *vh.Rng, idx int) *hist {
 	h := &hist{Disabled: idx%23 == 22}
 	np := 2 + r.Intn(3)
@@ -673,7 +765,7 @@ func genHist(r *vh.Rng, idx int) *hist {
 			}
 			j := validMsg(r, p, p.ctr)
 			j.Note = "valid"
-			o := jop{Kind: "verify", Msg: j}
+			o := jop{Kind: "verify", Msg: j, Via: pickVia(r)}
 			if r.Chance(1, 4) {
 				s := j.KesP * spkp
 				if r.Chance(1, 3) {
@@ -688,7 +780,7 @@ func genHist(r *vh.Rng, idx int) *hist {
 		case x < 78: // single-field corruption
 			j := validMsg(r, p, p.ctr+uint64(r.Intn(2)))
 			corrupt(r, vh.PickOne(r, corruptions), p, other, j)
-			o := jop{Kind: "verify", Msg: j}
+			o := jop{Kind: "verify", Msg: j, Via: pickVia(r)}
 			if r.Chance(1, 6) {
 				s := j.KesP*spkp + 1
 				o.Slot = &s
@@ -777,6 +869,20 @@ func corpus(r *vh.Rng) []*hist {
 		h.Ops = append(h.Ops, v(j))
 	}
 	out = append(out, h)
+	// the id check through every way a message object comes into being: a forged id must be rejected whether
+	// it sits in one field, in both, arrives over the wire (the decoder fills both fields) or via SetMessageID
+	hv := &hist{Ops: []jop{{Kind: "register", Pool: p.id}, {Kind: "verifier", V: 0}}}
+	for _, via := range []string{"", "wire", "submit", "legacy-wire", "setid"} {
+		for _, c := range []string{"id-bit", "id-both-forged", "id-both-bit", "id-empty", "id-legacy-only", "body-changed", "valid"} {
+			j := validMsg(r, p, 9)
+			j.Note = "valid"
+			if c != "valid" {
+				corrupt(r, c, p, q, j)
+			}
+			hv.Ops = append(hv.Ops, jop{Kind: "verify", Msg: j, Via: via})
+		}
+	}
+	out = append(out, hv)
 	// the no-op authenticator
 	out = append(out, &hist{Disabled: true, Ops: []jop{v(bad), {Kind: "verify", Nil: true}, v(mk(p, 1, "valid"))}})
 	return out
@@ -802,6 +908,7 @@ func doHist(c *vh.Ctx, cf *vh.CaseFile, h *hist, class string) {
 	for _, o := range h.Ops {
 		if o.Kind == "verify" && o.Msg != nil {
 			c.Res.Distribution["msg:"+o.Msg.Note]++
+			c.Res.Distribution["via:"+o.Via]++
 		}
 	}
 	c.Res.Distribution["verify-accepted"] += rr.acc
@@ -817,7 +924,7 @@ func doHist(c *vh.Ctx, cf *vh.CaseFile, h *hist, class string) {
 }
 
 func run(c *vh.Ctx) error {
-	c.Res.Rule = "histories of 7-25 API operations on a fresh authenticator: 2-4 pools with real Ed25519 cold keys; fully valid messages with per-pool counter patterns (up, equal, down, jumps, boundaries) mixed with single-field corruptions (26 kinds: id, payload, cold key/signature, opcert fields, KES key/signature, lengths, nil fields), nil messages, explicit slots, register/unregister (also of look-alike ids), cache removal, insecure-mode toggles and verifier replacement (4 verifier behaviours); distinct by the JSON of the history; non-trivial = at least one accepted and one rejected message"
+	c.Res.Rule = "histories of 7-25 API operations on a fresh authenticator: 2-4 pools with real Ed25519 cold keys; message objects built as struct literals, via MarshalCBOR + the real decoder, via the legacy wire shape, via a MsgSubmitMessage through NewMsgFromCbor, or via SetMessageID; fully valid messages with per-pool counter patterns (up, equal, down, jumps, boundaries) mixed with single-field corruptions and ids forged consistently in both id fields (28 kinds: id, payload, cold key/signature, opcert fields, KES key/signature, lengths, nil fields), nil messages, explicit slots, register/unregister (also of look-alike ids), cache removal, insecure-mode toggles and verifier replacement (4 verifier behaviours); distinct by the JSON of the history; non-trivial = at least one accepted and one rejected message"
 	c.Res.Modelled = []string{
 		"Blake2b-256, Ed25519 and the KES verifier are universally quantified Section variables in the theorems; in the correspondence the model receives their results as oracle tables computed by the harness (x/crypto blake2b, crypto/ed25519, the injected verifier's recorded calls) and must supply the same arguments itself",
 		"kesOpCertCache is read through reflection at the end of each history",
